@@ -398,6 +398,41 @@ def _lst(x):
     return x if isinstance(x, list) else []
 
 
+def _job_for_replay(js):
+    if not js:
+        return None
+    j = dict(js[0])
+    if os.path.isfile(j["file"]):
+        j["source"] = open(j["file"]).read()
+    return j
+
+
+def _replay(chk, sd):
+    """bin/verif check C09 --replay replays/C09-....json : the recorded job again, 30 executions in one process."""
+    rep = json.load(open(os.environ["VERIF_REPLAY"]))["replay"]
+    j = rep.get("job")
+    if not j:
+        raise vf.NoVerdict("replay file has no job")
+    if j["path"] != "test" and j.get("source"):
+        j["file"] = os.path.join(sd, "replay-" + os.path.basename(j["file"]))
+        open(j["file"], "w").write(j.pop("source"))
+    j.pop("source", None)
+    j["reps"] = 30
+    ov = vf.make_overlay(sd, HARNESS)
+    binp = vf.go_test_compile(ov, "./" + PKG + "/", os.path.join(sd, "c09.test"), timeout=3000)
+    tr, = _harness_run(sd, binp, [[j]], "replay")
+    r = _judge(chk, sd, tr, "trace validation (replay)")
+    ev = vf.read_ndjson(tr)
+    print("replayed %s %s: %d executions, goroutines at rest: %s" % (j["path"], j["key"], r["stats"]["execs"], ev[-1]["n"]))
+    for b in _lst(r["bad"]):
+        e = ev[b["idx"] - 1]
+        print("  still there: %s (execution %s, ended %s)" % (b["key"], e.get("rep"), e.get("kind")))
+        chk.violation(b["key"], "replayed job still leaves a goroutine behind", rep)
+    chk.cov["states"] = chk.cov["transitions"] = 1
+    chk.sample({"kind": "replay", "job": j["key"]})
+    return chk.finish()
+
+
 def run():
     thorough = vf.TIER == "thorough"
     rng = random.Random(vf.SEED)
@@ -414,6 +449,8 @@ def run():
         "schedules of the real runtime are sampled (a helper told to stop is given bounded time; only goroutines still present when "
         "the process has been still for 400 ms are reported); interleavings of helper exits are enumerated on the model only"]
     with vf.scratch() as sd:
+        if os.environ.get("VERIF_REPLAY"):
+            return _replay(chk, sd)
         # 1-3. model runs, concurrently (independent JVMs) with the build of the harness:
         #   the design satisfies C09 (exhaustive at the bound); negative controls (vacuity guards); case generation
         ov = vf.make_overlay(sd, HARNESS)
@@ -447,10 +484,10 @@ def run():
         if not cases:
             raise vf.NoVerdict("no cases generated")
         ncases_all = len(cases)
-        if thorough and len(cases) > 6000:
+        if thorough and len(cases) > 3200:
             small = [c for c in cases if len(c["units"]) <= 3]
             big = [c for c in cases if len(c["units"]) > 3]
-            cases = small + rng.sample(big, 6000 - len(small))
+            cases = small + rng.sample(big, 3200 - len(small))
         reps = 3 if thorough else 2
         pd = os.path.join(sd, "progs")
         os.makedirs(pd)
@@ -497,62 +534,75 @@ def run():
         t0 = time.time()
         traces = _harness_run(sd, binp, chunks, "t")
         vf.log("harness: %d processes, %.0fs" % (len(traces), time.time() - t0))
-        # one log = every recorded process, followed by tampered copies of the first one (binding self-test, stage 5)
-        events = []
-        for t in traces:
-            events += vf.read_ndjson(t)
-        nreal = len(events)
-        tests = _tampered(vf.read_ndjson(traces[0]), rng)
-        alln = list(events)
+        # the recorded processes are judged in G logs (independent JVMs); the last log also carries tampered copies of the
+        # first recorded process (binding self-test, stage 5)
+        segs = [vf.read_ndjson(t) for t in traces]
+        G = 4 if thorough else 1
+        logs = [[] for _ in range(G)]          # per log: list of (origin, event); origin = ("real", None) | ("test", t)
+        for k, sg in enumerate(segs):
+            logs[k % G] += [(None, e) for e in sg]
+        tests = _tampered(segs[0], rng)
         for t in tests:
-            t["offset"] = len(alln)
-            alln += t["events"]
-        full = vf.write_ndjson(os.path.join(sd, "trace-all.ndjson"), alln)
+            t["offset"] = len(logs[-1])
+            logs[-1] += [(t, e) for e in t["events"]]
         t0 = time.time()
-        rep = _judge(chk, sd, full, "trace validation (%d processes + %d tampered copies)" % (len(traces), len(tests)))
-        vf.log("trace validation: %d events, %.0fs" % (len(alln), time.time() - t0))
-        st = rep["stats"]
+        paths = [vf.write_ndjson(os.path.join(sd, "trace-%d.ndjson" % k), [e for _, e in lg]) for k, lg in enumerate(logs)]
+        with ThreadPoolExecutor(max_workers=G) as ex:
+            reps_ = list(ex.map(lambda kp: _judge(chk, sd, kp[1], "trace validation, log %d (%d events)" % (kp[0], len(logs[kp[0]]))),
+                                enumerate(paths)))
+        vf.log("trace validation: %d events in %d logs, %.0fs" % (sum(len(l) for l in logs), G, time.time() - t0))
+        st = {}
+        bad, guard, tbad, tguard = [], [], [], []
+        for lg, rp in zip(logs, reps_):
+            nx = sum(1 for _, e in lg if e["ev"] == "Exec")
+            if rp["stats"]["execs"] != nx or rp["open"] != 0 or rp["n"] != len(lg):
+                raise vf.NoVerdict("trace not consumed to the end: %s vs %d executions recorded" % (rp, nx))
+            for k, v in rp["stats"].items():
+                st[k] = st.get(k, 0) + v
+            for src, dst_real, dst_test in ((_lst(rp["bad"]), bad, tbad), (_lst(rp["guard"]), guard, tguard)):
+                for x in src:
+                    org, e = lg[x["idx"] - 1]
+                    (dst_real if org is None else dst_test).append({"key": x["key"], "idx": x["idx"], "event": e, "test": org})
+        events = [e for sg in segs for e in sg]
         execs = [e for e in events if e["ev"] == "Exec"]
-        nexec_all = sum(1 for e in alln if e["ev"] == "Exec")
-        if st["execs"] != nexec_all or rep["open"] != 0 or rep["n"] != len(alln):
-            raise vf.NoVerdict("trace not consumed to the end: %s vs %d executions recorded" % (rep, nexec_all))
-        # vacuity guards on what was really executed (projection only: markers the programs printed)
-        ran = sum(1 for e in execs if e["hasexp"] for m in e["marks"] if m.startswith("U"))
-        planned = sum(len(c["units"]) for c in cases) * reps
-        kinds = {}
-        for e in execs:
-            kinds[e["path"] + "/" + e["kind"]] = kinds.get(e["path"] + "/" + e["kind"], 0) + 1
-        for need in ("run/ok", "run/error", "run/panic", "test/ok", "service/ok", "service/error"):
-            if not kinds.get(need):
-                raise vf.NoVerdict("no execution of kind %s was recorded (driver too weak): %s" % (need, kinds))
-        if ran < 0.9 * planned or st["helpers"] == 0 or st["parked"] == 0:
-            raise vf.NoVerdict("generated programs did not run as planned: %d of %d units started, stats %s" % (ran, planned, st))
-        bad = [x for x in _lst(rep["bad"]) if x["idx"] <= nreal]
-        guard = [x for x in _lst(rep["guard"]) if x["idx"] <= nreal]
         alljobs = jobs + kjobs + tjobs + sjobs
         for b in bad:
-            e = events[b["idx"] - 1]
+            e = b["event"]
             chk.violation(b["key"], "a goroutine started by the interpreter for a finished execution is still there after the process "
                           "came to rest (execution: %s %s, ended %s)" % (e.get("path"), e.get("key"), e.get("kind")),
                           {"event": {k: e.get(k) for k in ("ev", "path", "key", "kind", "err", "marks", "n")},
-                           "file": [j["file"] for j in alljobs if j["key"] == e.get("key")][:1],
-                           "leftover": [g for g in e.get("snap", []) if g["cfn"] in ("(*Context).RunFromAddress", "goByteCode")][:12]})
-        if guard and not bad:
-            raise vf.NoVerdict("the program goroutines left behind differ from what the model computed for %d executions, e.g. %s %s: "
-                               "model or renderer defect" % (len(guard), guard[0], events[guard[0]["idx"] - 1].get("marks")))
+                           "job": _job_for_replay([j for j in alljobs if j["key"] == e.get("key")][:1]),
+                           "leftover": [g for g in e.get("snap", []) if g["cfn"] in ("(*Context).RunFromAddress", "goByteCode")
+                                        or (g["ego"] and g["cpkg"] != "github.com/tucats/ego/internal/caches")][:12]})
+        kinds = {}
+        for e in execs:
+            kinds[e["path"] + "/" + e["kind"]] = kinds.get(e["path"] + "/" + e["kind"], 0) + 1
+        if not bad:
+            # vacuity guards on what was really executed (projection only: markers the programs printed)
+            ran = sum(1 for e in execs if e["hasexp"] for m in e["marks"] if m.startswith("U"))
+            planned = sum(len(c["units"]) for c in cases) * reps
+            for need in ("run/ok", "run/error", "run/panic", "test/ok", "service/ok", "service/error"):
+                if not kinds.get(need):
+                    raise vf.NoVerdict("no execution of kind %s was recorded (driver too weak): %s" % (need, kinds))
+            if ran < 0.9 * planned or st["helpers"] == 0 or st["parked"] == 0:
+                raise vf.NoVerdict("generated programs did not run as planned: %d of %d units started, stats %s" % (ran, planned, st))
+            if any(e.get("trunc") for e in events if e["ev"] == "Final"):
+                raise vf.NoVerdict("a harness process stopped early (goroutine cap) although nothing was reported")
+            if guard:
+                raise vf.NoVerdict("the program goroutines left behind differ from what the model computed for %d executions, e.g. %s "
+                                   "%s %s: model or renderer defect" % (len(guard), guard[0]["key"], guard[0]["event"].get("marks"),
+                                                                         guard[0]["event"].get("expect")))
         # 5. binding self-test: what was injected into the tampered copies must have been reported, and nothing else
         for t in tests:
-            lo, hi = t["offset"], t["offset"] + len(t["events"])
-            tb = [x for x in _lst(rep["bad"]) if lo < x["idx"] <= hi]
-            tg = [x for x in _lst(rep["guard"]) if lo < x["idx"] <= hi]
-            if t["want_bad"] is None:
-                ok = not tb
-            else:
-                ok = any(t["want_bad"] in x["key"] and x["idx"] == lo + t["at"] + 1 for x in tb)
+            tb = [x for x in tbad if x["test"] is t]
+            tg = [x for x in tguard if x["test"] is t]
+            at = t["offset"] + t["at"] + 1
+            ok = (not tb) if t["want_bad"] is None else any(t["want_bad"] in x["key"] and x["idx"] == at for x in tb)
             if t.get("want_guard"):
-                ok = ok and any(x["idx"] == lo + t["at"] + 1 for x in tg)
+                ok = ok and any(x["idx"] == at for x in tg)
             if not ok and not bad:
-                raise vf.NoVerdict("binding self-test failed: %s (reported: %s %s)" % (t["name"], tb, tg))
+                raise vf.NoVerdict("binding self-test failed: %s (reported: %s %s)" %
+                                   (t["name"], [(x["key"], x["idx"]) for x in tb], [(x["key"], x["idx"]) for x in tg]))
         chk.cov["binding_selftest"] = "; ".join(t["name"] for t in tests)
         chk.cov["traces_validated_against_impl"] = len(traces)
         chk.cov["evaluations"] = st["tables"]
@@ -598,7 +648,9 @@ def _tampered(ev, rng):
     for name, g, want in (("a helper of a finished execution that stays is reported", rec(BC, "(*Context).RunFromAddress"), "watcher/host=driver"),
                           ("a program goroutine that stays outside its function is reported", rec(BC, "goByteCode"), "prog/finished"),
                           ("any other goroutine started by interpreter code is reported",
-                           rec("github.com/tucats/ego/internal/runtime/rest", "Exchange.func1"), "interp/")):
+                           rec("github.com/tucats/ego/internal/runtime/rest", "Exchange.func1"), "interp/"),
+                          ("a second instance of a one-time worker is reported", dict(rec("os/signal", "Notify.func1.1"), ego=False),
+                           "once-grows/os/signal.Notify.func1.1")):
         cp = copy()
         for e in cp[i:finals[0] + 1]:
             e["snap"].append(g)
